@@ -52,7 +52,16 @@ def cases(draw, nmax):
                 ratio=draw(st.sampled_from([1.0, 0.5, 3.0])), steps=draw(st.integers(1, 50)),
                 n=draw(st.sampled_from([10000, 10000, nmax])), seed=draw(st.integers(0, 2**31 - 1)),
                 # the cloud comes out of a restart file with single-precision positions (ladim.warm_start)
-                warm=draw(st.sampled_from([False, False, True])))
+                warm=draw(st.sampled_from([False, False, True])),
+                # vertical advection switched on together with vertical diffusion: a constant w shifts the cloud by
+                # w*t (here at most two standard deviations) and must leave its spread alone
+                vadv=draw(st.sampled_from([False, False, True])), wfrac=draw(st.floats(-2.0, 2.0)))
+
+
+def w_of(case, Dz):
+    if not (case.get("vadv") and Dz > 0):
+        return 0.0
+    return case["wfrac"] * math.sqrt(2 * Dz * case["dt"] * case["steps"]) / (case["dt"] * case["steps"])
 
 
 def make(case, D, Dz, dx, seed, n, u=0.0):
@@ -93,7 +102,11 @@ def make(case, D, Dz, dx, seed, n, u=0.0):
         kw["diffusion"] = D
     if Dz > 0:
         kw["vertdiff"] = Dz
-    tr = Tracker(modules=dict(state=state, grid=OpenGrid(dx, dy, h), time=Timer(), forcing=Still(u, -u)),
+    force = Still(u, -u)
+    if case.get("vadv") and Dz > 0:
+        kw["vertical_advection"] = True
+        force.variables["w"] = np.full(n, w_of(case, Dz))
+    tr = Tracker(modules=dict(state=state, grid=OpenGrid(dx, dy, h), time=Timer(), forcing=force),
                  advection="EF" if u else "", **kw)
     tr.rng = np.random.default_rng(seed)
     return tr, state, h
@@ -133,7 +146,9 @@ def oracle(case) -> core.CaseResult:
     band_cor = SIG / math.sqrt(n)
     comps = [("X", dX, 2 * D * dt * m / dx**2), ("Y", dY, 2 * D * dt * m / dy**2)]
     if Dz > 0:
-        comps.append(("Z", dZ, 2 * Dz * dt * m))
+        comps.append(("Z", dZ - w_of(case, Dz) * dt * m, 2 * Dz * dt * m))
+        if case.get("vadv"):
+            res.cls("vertical_advection_and_diffusion")
     for name, d, s2 in comps:
         sd = math.sqrt(s2)
         res.check(abs(d.mean()) <= SIG * sd / math.sqrt(n), f"bias_{name}",
